@@ -98,6 +98,11 @@ CHECKS = {
         "async with Gateway(...) with a body that mutates the registry; every order of {complete next executor job of a load/save, fire the next timer (<= 3), let the body exit} x body returns/raises x connect/disconnect ok/fail x file present/missing; cancelled executor jobs branch into takes-effect / dropped. Oracle: file loaded on entry, save after entry, save interval <= 900 virtual s, disconnect called, no CancelledError, final file = final registry, no task/timer left.",
         "Executor jobs take effect in submission order; clock horizon 3 timer firings; in-memory file system.",
         "5/C16"),
+    "C17": ("E2", "exploration",
+        "bounded-exhaustive enumeration of byte strings x all chunkings x endings x consumer schedules through real asyncio streams and the real TCP/Serial transports on a hand-driven loop; exhaustive flow-control schedules for writes",
+        "Read side: every byte string <= 4 (quick) / 6 (thorough) over {a ; \\n C3 A9 FF} x every composition into arrival chunks x {EOF, connection error} x 3 consumer schedules, plus a tiny-limit reader; successive reads must be exactly the newline-terminated lines decoded as UTF-8, anything else a TransportError. Write side: every schedule of pause/resume/connection-lost against 1-3 writes through a real StreamWriter; bytes at the peer = UTF-8 of the lines in call order. Life cycle: use before connect, five failing factory errors, failing close/wait_closed, both transport classes.",
+        "asyncio streams are real; socket/serial port replaced by a fake asyncio.Transport via the factory seams the repo's tests patch.",
+        "5/C17"),
     "C19": ("E1", "model_checking",
         "differential explicit-state BFS over the product of two real gateways (old, new protocol)",
         "8 version pairs; every internal/stream type of the older table x 3 payloads in 3-7 base states, and all histories to depth 4 (quick) / 6 (thorough) of lines and send calls; outcome, writes and registry must agree per step.",
